@@ -76,6 +76,7 @@ type FuncVC struct {
 	curBinds      []Val
 	step          *stepCtx
 	curInstr      ssa.Instruction
+	pendingAt     ssa.CallInstruction
 	storeOrd      map[ssa.Instruction]int
 }
 
@@ -571,8 +572,13 @@ func (vc *FuncVC) explore(st *State, b *ssa.BasicBlock, idx int, prev *ssa.Basic
 				vc.goStmt(st, gs)
 				continue
 			}
+			vc.pendingAt = nil
 			if top && len(vc.con.AtCall) > 0 {
-				vc.atCall(st, x)
+				if vc.step != nil && st.step != nil && st.dry == nil {
+					vc.pendingAt = x // applied inside the step, after the interference that precedes it
+				} else {
+					vc.atCall(st, x)
+				}
 			}
 			vc.curInstr = in
 			res := vc.doCall(st, x)
@@ -1065,4 +1071,13 @@ func (vc *FuncVC) renameObligations(name string) {
 	}
 	vc.trivial = triv
 	vc.name = name
+}
+
+// flushAtCall applies the at-call ghost updates of the call being executed (step mode: inside the step).
+func (vc *FuncVC) flushAtCall(st *State) {
+	if vc.pendingAt != nil {
+		x := vc.pendingAt
+		vc.pendingAt = nil
+		vc.atCall(st, x)
+	}
 }
